@@ -193,7 +193,7 @@ func extractHints(vc *VC, obls []*Obl, out, hdir string, slower float64, fn stri
 	var wg sync.WaitGroup
 	sem := make(chan bool, 12)
 	run := func(o *Obl) bool {
-		core := vc.extractCore(o, out, 300)
+		core := vc.extractCore(o, out, 120)
 		if core == nil {
 			return false
 		}
